@@ -855,3 +855,90 @@ async def _fh_write(ctx: Ctx, a: Actor, st: dict) -> Any:
 @step("fh.close")
 async def _fh_close(ctx: Ctx, a: Actor, st: dict) -> Any:
     ctx.extra["fh"].close()
+
+
+# ----------------------------------------------------------------------------------------
+# Bluetooth proxy operations (C16)
+# ----------------------------------------------------------------------------------------
+
+
+@step("ble.read")
+async def _b_read(ctx: Ctx, a: Actor, st: dict) -> Any:
+    data = await _cli(ctx, st).bluetooth_gatt_read(st["address"], st["handle"], timeout=st.get("timeout", 30.0))
+    return {"data": bytes(data)}
+
+
+@step("ble.write")
+async def _b_write(ctx: Ctx, a: Actor, st: dict) -> Any:
+    await _cli(ctx, st).bluetooth_gatt_write(st["address"], st["handle"], bytes.fromhex(st.get("data", "01")), st.get("response", True), timeout=st.get("timeout", 30.0))
+
+
+@step("ble.notify")
+async def _b_notify(ctx: Ctx, a: Actor, st: dict) -> Any:
+    tag = st.get("tag", a.aid)
+
+    def on_notify(handle: int, data: bytearray) -> None:
+        ctx.world.rec("cb_notify", tag=tag, handle=handle, data=bytes(data))
+
+    stop, remove = await _cli(ctx, st).bluetooth_gatt_start_notify(st["address"], st["handle"], on_notify, timeout=st.get("timeout", 10.0))
+    ctx.subs["notify:" + tag] = (stop, remove)
+
+
+@step("ble.notify_stop")
+async def _b_notify_stop(ctx: Ctx, a: Actor, st: dict) -> Any:
+    ent = ctx.subs.pop("notify:" + st["tag"], None)
+    if ent is None:
+        return "no-subscription"
+    stop, remove = ent
+    if st.get("remove_only"):
+        remove()
+    else:
+        await stop()
+
+
+@step("ble.services")
+async def _b_services(ctx: Ctx, a: Actor, st: dict) -> Any:
+    res = await _cli(ctx, st).bluetooth_gatt_get_services(st["address"])
+    return {"address": res.address, "services": [s.handle for s in res.services]}
+
+
+@step("ble.pair")
+async def _b_pair(ctx: Ctx, a: Actor, st: dict) -> Any:
+    r = await _cli(ctx, st).bluetooth_device_pair(st["address"], timeout=st.get("timeout", 30.0))
+    return {"address": r.address, "paired": r.paired, "error": r.error}
+
+
+@step("ble.unpair")
+async def _b_unpair(ctx: Ctx, a: Actor, st: dict) -> Any:
+    r = await _cli(ctx, st).bluetooth_device_unpair(st["address"], timeout=st.get("timeout", 30.0))
+    return {"address": r.address, "success": r.success, "error": r.error}
+
+
+@step("ble.clear_cache")
+async def _b_clear(ctx: Ctx, a: Actor, st: dict) -> Any:
+    r = await _cli(ctx, st).bluetooth_device_clear_cache(st["address"], timeout=st.get("timeout", 30.0))
+    return {"address": r.address, "success": r.success, "error": r.error}
+
+
+@step("ble.disconnect")
+async def _b_disc(ctx: Ctx, a: Actor, st: dict) -> Any:
+    await _cli(ctx, st).bluetooth_device_disconnect(st["address"], timeout=st.get("timeout", 20.0))
+
+
+@step("ble.connect")
+async def _b_connect(ctx: Ctx, a: Actor, st: dict) -> Any:
+    tag = st.get("tag", a.aid)
+
+    def on_state(connected: bool, mtu: int, error: int) -> None:
+        ctx.world.rec("cb_ble_state", tag=tag, connected=bool(connected), mtu=mtu, error=error)
+
+    unsub = await _cli(ctx, st).bluetooth_device_connect(st["address"], on_state, timeout=st.get("timeout", 30.0), disconnect_timeout=st.get("disconnect_timeout", 20.0), feature_flags=st.get("feature_flags", 0), has_cache=st.get("has_cache", False), address_type=st.get("address_type"))
+    ctx.subs["bleconn:" + tag] = unsub
+
+
+@step("ble.unsub")
+async def _b_unsub(ctx: Ctx, a: Actor, st: dict) -> Any:
+    unsub = ctx.subs.pop("bleconn:" + st["tag"], None)
+    if unsub is None:
+        return "no-subscription"
+    unsub()
